@@ -263,8 +263,8 @@ func (r *raceRun) settle(lw *lagWatch) {
 	for _, ns := range pend {
 		select {
 		case <-ns.done:
-		case <-gotime.After(3 * gotime.Second):
-			// channel not closed by Unsubscribe; the consumer goroutine is abandoned
+		case <-gotime.After(waitCap):
+			r.failf("OPEN-AFTER-UNSUBSCRIBE", "iteration %d: %v after Unsubscribe of actor %d returned its event channel is still open", ns.iter, waitCap, ns.id)
 		}
 		if ids := r.ps.ClientIDs(ns.key); len(ids) != 0 {
 			r.failf("LEAK-SUBSCRIPTION", "iteration %d: after every subscriber unsubscribed, ClientIDs still lists %v", ns.iter, ids)
